@@ -1,6 +1,655 @@
-//! `vh feaparse`: see /verif/docs/MODULE_CONTRACT.md
+//! `vh feaparse`: drive the real fea-rs front end for property C13 (see /verif/docs/C13.md).
+//!
+//! ndjson requests on stdin (or `--in <file>`), one JSON result line per request on stdout, and (with
+//! `--trace-out <file>`) one ndjson *trace record* per parsed input for the TLC trace validator
+//! spec/FeaParseTrace.tla.  This file only calls the real code and projects what it returned: the parse tree
+//! as a pre-order event list (Start/Token/Finish), the diagnostics as ranges + measured facts about the
+//! source they point into.  All judging is done by TLC (FeaParseTrace.tla) and checks/c13.py.
+//!
+//! Requests:
+//!  {"op":"parse","tag":..,"text":..,"glyphs":[names or cids]|null}
+//!  {"op":"include","tag":..,"files":{"name":"text",..},"root":"name","dir":"/abs/dir" (on disk) | "" (in
+//!   memory),"reference":"expected inlined text"|null,"glyphs":..}
+//!
+//! Every call into fea-rs happens inside catch_unwind on a worker thread; the main thread waits for each
+//! result with a time budget (`--budget-ms`, default 20000).  A panic or a timeout is data; a timeout says in
+//! which phase (parse | walk | format | validate) the worker was, and ends the process (the stuck thread cannot
+//! be stopped); the driver starts a new process for the remaining requests.  The timeout line carries a few
+//! stack samples of the stuck thread (return addresses as offsets into this executable).
 
-pub fn run(_args: &[String]) -> i32 {
-    eprintln!("vh feaparse: not implemented yet");
-    2
+use std::{
+    collections::HashMap,
+    fmt::Write as _,
+    io::{BufRead, Write},
+    panic::{AssertUnwindSafe, catch_unwind},
+    path::{Path, PathBuf},
+    sync::{
+        Arc,
+        atomic::{AtomicU8, AtomicUsize, Ordering},
+        mpsc,
+    },
+    time::{Duration, Instant},
+};
+
+use fea_rs::{
+    DiagnosticSet, GlyphMap, Kind, NodeOrToken, ParseTree,
+    compile::NopVariationInfo,
+    parse::{SourceLoadError, parse_root, parse_root_file},
+};
+use serde::Deserialize;
+use serde_json::{Value, json};
+
+#[derive(Debug, Default, Clone, Deserialize)]
+#[serde(default)]
+struct Req {
+    op: String,
+    tag: String,
+    text: String,
+    glyphs: Option<Vec<Value>>,
+    files: HashMap<String, String>,
+    root: String,
+    dir: String,
+    reference: Option<String>,
+    /// keep the materialised files (default: remove the directory afterwards)
+    keep: bool,
+}
+
+static PHASE: AtomicU8 = AtomicU8::new(0);
+
+// ---- where is a stuck worker?  SIGUSR1 makes the worker thread record its return addresses (glibc
+// backtrace(), no allocation); the driver symbolises the offsets with `nm`.
+const MAX_FRAMES: usize = 96;
+static SAMPLE: [AtomicUsize; MAX_FRAMES] = [const { AtomicUsize::new(0) }; MAX_FRAMES];
+static SAMPLE_N: AtomicUsize = AtomicUsize::new(0);
+static WORKER: AtomicUsize = AtomicUsize::new(0);
+
+extern "C" fn on_sigusr1(_: libc::c_int) {
+    let mut buf = [std::ptr::null_mut::<libc::c_void>(); MAX_FRAMES];
+    let n = unsafe { libc::backtrace(buf.as_mut_ptr(), MAX_FRAMES as libc::c_int) };
+    for (i, a) in buf.iter().enumerate().take(n.max(0) as usize) {
+        SAMPLE[i].store(*a as usize, Ordering::SeqCst);
+    }
+    SAMPLE_N.store(n.max(0) as usize, Ordering::SeqCst);
+}
+
+fn install_sampler() {
+    unsafe {
+        // first call loads the unwinder; do it outside the handler
+        let mut warm = [std::ptr::null_mut::<libc::c_void>(); 4];
+        libc::backtrace(warm.as_mut_ptr(), 4);
+        let mut sa: libc::sigaction = std::mem::zeroed();
+        sa.sa_sigaction = on_sigusr1 as *const () as usize;
+        sa.sa_flags = libc::SA_RESTART;
+        libc::sigemptyset(&mut sa.sa_mask);
+        libc::sigaction(libc::SIGUSR1, &sa, std::ptr::null_mut());
+    }
+}
+
+/// load address of the executable (offsets are what `nm` prints for a PIE)
+fn exe_base() -> usize {
+    let exe = std::env::current_exe().ok().map(|p| p.to_string_lossy().to_string()).unwrap_or_default();
+    let maps = std::fs::read_to_string("/proc/self/maps").unwrap_or_default();
+    for line in maps.lines() {
+        if line.ends_with(&exe) {
+            if let Some(lo) = line.split('-').next() {
+                return usize::from_str_radix(lo, 16).unwrap_or(0);
+            }
+        }
+    }
+    0
+}
+
+/// a few stack samples of the stuck worker, as offsets into the executable (outermost frame last)
+fn sample_worker() -> Vec<Vec<String>> {
+    let tid = WORKER.load(Ordering::SeqCst);
+    let base = exe_base();
+    let mut out = Vec::new();
+    if tid == 0 {
+        return out;
+    }
+    for _ in 0..12 {
+        SAMPLE_N.store(0, Ordering::SeqCst);
+        unsafe { libc::pthread_kill(tid as libc::pthread_t, libc::SIGUSR1) };
+        let t = Instant::now();
+        while SAMPLE_N.load(Ordering::SeqCst) == 0 && t.elapsed() < Duration::from_millis(300) {
+            std::thread::sleep(Duration::from_millis(2));
+        }
+        let n = SAMPLE_N.load(Ordering::SeqCst);
+        if n > 0 {
+            out.push(
+                (0..n)
+                    .map(|i| SAMPLE[i].load(Ordering::SeqCst))
+                    .filter(|a| *a >= base)
+                    .map(|a| format!("{:x}", a - base))
+                    .collect(),
+            );
+        }
+        std::thread::sleep(Duration::from_millis(23));
+    }
+    out
+}
+const PHASES: [&str; 5] = ["idle", "parse", "walk", "format", "validate"];
+
+fn phase(p: u8) {
+    PHASE.store(p, Ordering::SeqCst);
+}
+
+/// 30-bit FNV-1a (TLC integers are 32-bit signed)
+fn h30(bytes: &[u8]) -> u32 {
+    let mut h: u32 = 0x811c9dc5;
+    for b in bytes {
+        h ^= *b as u32;
+        h = h.wrapping_mul(0x01000193);
+    }
+    (h ^ (h >> 30)) & 0x3fff_ffff
+}
+
+fn panic_text(err: Box<dyn std::any::Any + Send>) -> String {
+    match err.downcast_ref::<&'static str>() {
+        Some(s) => s.to_string(),
+        None => match err.downcast_ref::<String>() {
+            Some(s) => s.clone(),
+            None => "Box<dyn Any>".to_string(),
+        },
+    }
+}
+
+thread_local! {
+    static LAST_PANIC_LOC: std::cell::RefCell<String> = const { std::cell::RefCell::new(String::new()) };
+}
+
+fn last_loc() -> String {
+    LAST_PANIC_LOC.with(|l| l.borrow().clone())
+}
+
+fn glyph_map(glyphs: &Option<Vec<Value>>) -> Option<GlyphMap> {
+    let glyphs = glyphs.as_ref()?;
+    let idents: Vec<fea_rs::GlyphIdent> = glyphs
+        .iter()
+        .filter_map(|v| match v {
+            Value::String(s) => Some(s.as_str().into()),
+            Value::Number(n) => n.as_u64().map(|n| (n as u16).into()),
+            _ => None,
+        })
+        .collect();
+    GlyphMap::new(idents).ok()
+}
+
+/// What the tree looks like as sink events, measured against `input`.
+struct Walk {
+    /// JSON array text
+    events: String,
+    nev: usize,
+    concat: String,
+    ntok: usize,
+    nnode: usize,
+    max_depth: usize,
+    /// hash of the sequence of event kinds (for counting distinct tree shapes)
+    shape: u32,
+}
+
+struct KindNames(HashMap<Kind, String>);
+impl KindNames {
+    fn get(&mut self, k: Kind) -> &str {
+        self.0.entry(k).or_insert_with(|| serde_json::to_string(&k.to_string()).unwrap())
+    }
+}
+
+/// Pre-order walk with an explicit stack (a deep tree must not overflow *our* stack).
+/// Token event: k kind, n byte length of the token text, at = running offset (sum of the lengths of the
+/// tokens before it), h = hash of the token text, s = hash of input[at..at+n] (-1 if that is not a valid
+/// slice of the input).  Start event: k kind, n = the node's own text_len field, x = its error flag.
+fn walk(tree: &ParseTree, input: &str, keep_concat: bool) -> Walk {
+    let root = tree.root();
+    let mut names = KindNames(HashMap::new());
+    let mut w = Walk {
+        events: String::with_capacity(64 + input.len() * 16),
+        nev: 0,
+        concat: String::new(),
+        ntok: 0,
+        nnode: 1,
+        max_depth: 1,
+        shape: 0x811c9dc5,
+    };
+    let mix = |shape: &mut u32, s: &str| {
+        for b in s.bytes() {
+            *shape ^= b as u32;
+            *shape = shape.wrapping_mul(0x01000193);
+        }
+    };
+    let mut at: usize = 0;
+    let k = names.get(root.kind()).to_string();
+    let _ = write!(w.events, r#"[{{"e":"S","k":{},"n":{},"x":{}}}"#, k, root.text_len(), root.error);
+    mix(&mut w.shape, &k);
+    w.nev += 1;
+    let mut stack = vec![root.iter_children()];
+    while let Some(top) = stack.last_mut() {
+        match top.next() {
+            None => {
+                stack.pop();
+                w.events.push_str(r#",{"e":"F"}"#);
+                mix(&mut w.shape, ")");
+            }
+            Some(NodeOrToken::Token(t)) => {
+                let text = t.as_str();
+                let n = text.len();
+                let s: i64 = match input.get(at..at + n) {
+                    Some(slice) => h30(slice.as_bytes()) as i64,
+                    None => -1,
+                };
+                let k = names.get(t.kind);
+                let _ = write!(
+                    w.events,
+                    r#",{{"e":"T","k":{},"n":{},"at":{},"h":{},"s":{}}}"#,
+                    k,
+                    n,
+                    at,
+                    h30(text.as_bytes()),
+                    s
+                );
+                mix(&mut w.shape, k);
+                if keep_concat {
+                    w.concat.push_str(text);
+                }
+                at += n;
+                w.ntok += 1;
+            }
+            Some(NodeOrToken::Node(node)) => {
+                w.nnode += 1;
+                let k = names.get(node.kind());
+                let _ = write!(w.events, r#",{{"e":"S","k":{},"n":{},"x":{}}}"#, k, node.text_len(), node.error);
+                mix(&mut w.shape, k);
+                stack.push(node.iter_children());
+                w.max_depth = w.max_depth.max(stack.len());
+            }
+        }
+        w.nev += 1;
+    }
+    w.events.push(']');
+    w
+}
+
+fn concat_tokens(tree: &ParseTree) -> String {
+    tree.root().iter_tokens().map(|t| t.as_str()).collect()
+}
+
+/// A diagnostic as measured facts: range, length of the source it points into, char-boundary flags.
+struct Diag {
+    lo: usize,
+    hi: usize,
+    fl: i64,
+    lb: bool,
+    hb: bool,
+    err: bool,
+    file: String,
+    msg: String,
+}
+
+impl Diag {
+    fn inside(&self) -> bool {
+        self.lo <= self.hi && (self.hi as i64) <= self.fl && self.lb && self.hb
+    }
+    fn full(&self, ph: &str) -> Value {
+        json!({"lo":self.lo,"hi":self.hi,"fl":self.fl,"lb":self.lb,"hb":self.hb,
+               "lv": if self.err {"E"} else {"W"}, "ph": ph, "file": self.file, "msg": self.msg})
+    }
+    fn brief(&self, out: &mut String, ph: &str) {
+        let _ = write!(
+            out,
+            r#"{{"lo":{},"hi":{},"fl":{},"lb":{},"hb":{},"lv":"{}","ph":"{}"}}"#,
+            self.lo,
+            self.hi,
+            self.fl,
+            self.lb,
+            self.hb,
+            if self.err { "E" } else { "W" },
+            ph
+        );
+    }
+}
+
+fn project_diags(tree: &ParseTree, diags: &DiagnosticSet) -> Vec<Diag> {
+    diags
+        .diagnostics()
+        .iter()
+        .map(|d| {
+            let r = d.span();
+            let src = tree.get_source(d.message.file);
+            let (fl, lb, hb, file) = match src {
+                Some(s) => {
+                    let t = s.text();
+                    (
+                        t.len() as i64,
+                        t.is_char_boundary(r.start),
+                        t.is_char_boundary(r.end),
+                        s.path().file_name().map(|f| f.to_string_lossy().to_string()).unwrap_or_default(),
+                    )
+                }
+                None => (-1, false, false, String::new()),
+            };
+            Diag { lo: r.start, hi: r.end, fl, lb, hb, err: d.is_error(), file, msg: d.text().to_string() }
+        })
+        .collect()
+}
+
+struct Parsed {
+    tree: ParseTree,
+    diags: DiagnosticSet,
+}
+
+fn do_parse(req: &Req, gm: Option<&GlyphMap>) -> Result<Result<Parsed, String>, String> {
+    // Ok(Ok(parsed)) | Ok(Err(load error)) | Err(panic message)
+    let r = catch_unwind(AssertUnwindSafe(|| -> Result<(ParseTree, DiagnosticSet), SourceLoadError> {
+        if req.op == "include" && !req.dir.is_empty() {
+            let root = Path::new(&req.dir).join(&req.root);
+            parse_root_file(root, gm, None)
+        } else {
+            let mut files: HashMap<PathBuf, Arc<str>> = HashMap::new();
+            let root: PathBuf;
+            if req.op == "include" {
+                for (k, v) in &req.files {
+                    files.insert(PathBuf::from(k), v.as_str().into());
+                }
+                root = PathBuf::from(&req.root);
+            } else {
+                root = PathBuf::from("root.fea");
+                files.insert(root.clone(), req.text.as_str().into());
+            }
+            parse_root(
+                root,
+                gm,
+                Box::new(move |p: &Path| {
+                    files.get(p).cloned().ok_or_else(|| SourceLoadError::new(p.to_path_buf(), "no such file"))
+                }),
+            )
+        }
+    }));
+    match r {
+        Err(e) => Err(panic_text(e)),
+        Ok(Err(e)) => Ok(Err(e.to_string())),
+        Ok(Ok((tree, diags))) => Ok(Ok(Parsed { tree, diags })),
+    }
+}
+
+/// Returns (result line, optional trace record body: the JSON object text without its leading `{`, so that
+/// the caller can put the record number in front).
+fn handle(req: &Req) -> (Value, Option<String>) {
+    let t0 = Instant::now();
+    let gm = glyph_map(&req.glyphs);
+    if req.op == "include" && !req.dir.is_empty() {
+        let _ = std::fs::create_dir_all(&req.dir);
+        for (k, v) in &req.files {
+            let _ = std::fs::write(Path::new(&req.dir).join(k), v);
+        }
+    }
+    phase(1);
+    let parsed = do_parse(req, gm.as_ref());
+    let ms_parse = t0.elapsed().as_millis() as u64;
+    phase(2);
+    if req.op == "include" && !req.dir.is_empty() && !req.keep {
+        let _ = std::fs::remove_dir_all(&req.dir);
+    }
+    let mut res = json!({"tag": req.tag, "op": req.op, "gm": gm.is_some()});
+    let parsed = match parsed {
+        Err(msg) => {
+            res["outcome"] = json!("panic");
+            res["where"] = json!("parse");
+            res["message"] = json!(msg);
+            res["loc"] = json!(last_loc());
+            return (res, None);
+        }
+        Ok(Err(msg)) => {
+            res["outcome"] = json!("loaderr");
+            res["message"] = json!(msg);
+            return (res, None);
+        }
+        Ok(Ok(p)) => p,
+    };
+    // the text the tree has to reproduce
+    let input: &str = if req.op == "include" { req.reference.as_deref().unwrap_or("") } else { &req.text };
+    let have_input = req.op != "include" || req.reference.is_some();
+    let projected = catch_unwind(AssertUnwindSafe(|| {
+        let w = walk(&parsed.tree, input, req.op == "include");
+        let concat_ok = if req.op == "include" { w.concat == input } else { concat_tokens(&parsed.tree) == input };
+        let dg = project_diags(&parsed.tree, &parsed.diags);
+        (w, concat_ok, dg)
+    }));
+    let (w, concat_ok, dg) = match projected {
+        Ok(x) => x,
+        Err(e) => {
+            // the public tree API itself panicked on the tree the parser returned
+            res["outcome"] = json!("panic");
+            res["where"] = json!("walk");
+            res["message"] = json!(panic_text(e));
+            res["loc"] = json!(last_loc());
+            return (res, None);
+        }
+    };
+    let has_errors = parsed.diags.has_errors();
+    res["ms_parse"] = json!(ms_parse);
+    res["outcome"] = json!("ok");
+    res["len"] = json!(input.len());
+    res["concat_ok"] = if have_input { json!(concat_ok) } else { Value::Null };
+    res["ntok"] = json!(w.ntok);
+    res["nnode"] = json!(w.nnode);
+    res["nev"] = json!(w.nev);
+    res["depth"] = json!(w.max_depth);
+    res["shape"] = json!(w.shape);
+    res["has_errors"] = json!(has_errors);
+    res["ndiag"] = json!(dg.len());
+    if req.op == "include" {
+        res["text"] = json!(w.concat);
+        res["diags"] = json!(dg.iter().map(|d| d.full("p")).collect::<Vec<_>>());
+    } else {
+        // only the diagnostics a reader of the result line may need: those not inside their source
+        res["bad_diags"] = json!(dg.iter().filter(|d| !d.inside()).take(8).map(|d| d.full("p")).collect::<Vec<_>>());
+    }
+    // formatting the diagnostics for the user (not part of the property; recorded)
+    phase(3);
+    let mut limited = parsed.diags.clone();
+    limited.set_max_to_print(50);
+    let fmt = catch_unwind(AssertUnwindSafe(|| limited.display().to_string().len()));
+    res["format"] = json!(match fmt {
+        Ok(_) => "ok".to_string(),
+        Err(e) => format!("panic: {} @{}", panic_text(e), last_loc()),
+    });
+    // validation of error-free trees, as the compiler does it (same glyph map as the parse)
+    let mut validate = "skipped".to_string();
+    let mut vdg: Vec<Diag> = Vec::new();
+    if !has_errors && let Some(gm) = gm.as_ref() {
+        phase(4);
+        let t1 = Instant::now();
+        let v = catch_unwind(AssertUnwindSafe(|| {
+            let d = fea_rs::compile::validate(&parsed.tree, gm, None::<&NopVariationInfo>);
+            let dg = project_diags(&parsed.tree, &d);
+            (d.has_errors(), dg)
+        }));
+        res["ms_validate"] = json!(t1.elapsed().as_millis() as u64);
+        match v {
+            Ok((errs, d)) => {
+                validate = if errs { "errors".into() } else { "ok".into() };
+                res["vdiags"] = json!(d.len());
+                res["bad_vdiags"] =
+                    json!(d.iter().filter(|d| !d.inside()).take(8).map(|d| d.full("v")).collect::<Vec<_>>());
+                vdg = d;
+            }
+            Err(e) => {
+                validate = "panic".into();
+                res["validate_msg"] = json!(panic_text(e));
+                res["validate_loc"] = json!(last_loc());
+            }
+        }
+    }
+    phase(0);
+    res["validate"] = json!(validate);
+    res["ms"] = json!(t0.elapsed().as_millis() as u64);
+    let rec = if have_input {
+        let mut s = String::with_capacity(w.events.len() + 128);
+        let _ = write!(
+            s,
+            r#""tag":{},"len":{},"err":{},"ev":{},"dg":["#,
+            serde_json::to_string(&req.tag).unwrap(),
+            input.len(),
+            has_errors,
+            w.events
+        );
+        let mut first = true;
+        for (d, ph) in dg.iter().map(|d| (d, "p")).chain(vdg.iter().map(|d| (d, "v"))) {
+            if !first {
+                s.push(',');
+            }
+            first = false;
+            d.brief(&mut s, ph);
+        }
+        s.push_str("]}");
+        Some(s)
+    } else {
+        None
+    };
+    (res, rec)
+}
+
+type WorkerResult = (Value, Option<String>);
+
+fn spawn_worker(stack_mb: usize) -> (mpsc::Sender<Req>, mpsc::Receiver<WorkerResult>) {
+    let (tx_req, rx_req) = mpsc::channel::<Req>();
+    let (tx_res, rx_res) = mpsc::channel();
+    std::thread::Builder::new()
+        .name("feaparse-worker".into())
+        .stack_size(stack_mb << 20)
+        .spawn(move || {
+            WORKER.store(unsafe { libc::pthread_self() } as usize, Ordering::SeqCst);
+            while let Ok(req) = rx_req.recv() {
+                let out = match catch_unwind(AssertUnwindSafe(|| handle(&req))) {
+                    Ok(o) => o,
+                    Err(e) => (
+                        json!({"tag": req.tag, "op": req.op, "outcome": "panic", "where": "harness",
+                               "message": panic_text(e), "loc": last_loc()}),
+                        None,
+                    ),
+                };
+                if tx_res.send(out).is_err() {
+                    break;
+                }
+            }
+        })
+        .expect("spawn worker");
+    (tx_req, rx_res)
+}
+
+pub fn run(args: &[String]) -> i32 {
+    let mut trace_out: Option<std::io::BufWriter<std::fs::File>> = None;
+    let mut budget = Duration::from_millis(20_000);
+    let mut stack_mb = 8usize;
+    let mut input: Box<dyn BufRead> = Box::new(std::io::BufReader::new(std::io::stdin()));
+    let mut i = 0;
+    while i < args.len() {
+        let need = |i: usize| -> Option<&String> { args.get(i + 1) };
+        match args[i].as_str() {
+            "--trace-out" => {
+                let Some(p) = need(i) else { return 2 };
+                match std::fs::File::create(p) {
+                    Ok(f) => trace_out = Some(std::io::BufWriter::new(f)),
+                    Err(e) => {
+                        eprintln!("cannot create {p}: {e}");
+                        return 2;
+                    }
+                }
+                i += 1;
+            }
+            "--budget-ms" => {
+                let Some(p) = need(i) else { return 2 };
+                budget = Duration::from_millis(p.parse().unwrap_or(20_000));
+                i += 1;
+            }
+            "--stack-mb" => {
+                let Some(p) = need(i) else { return 2 };
+                stack_mb = p.parse().unwrap_or(8);
+                i += 1;
+            }
+            "--in" => {
+                let Some(p) = need(i) else { return 2 };
+                match std::fs::File::open(p) {
+                    Ok(f) => input = Box::new(std::io::BufReader::new(f)),
+                    Err(e) => {
+                        eprintln!("cannot open {p}: {e}");
+                        return 2;
+                    }
+                }
+                i += 1;
+            }
+            other => {
+                eprintln!("vh feaparse: unknown argument {other}");
+                return 2;
+            }
+        }
+        i += 1;
+    }
+    // panics in the code under test are data: remember where, print nothing
+    std::panic::set_hook(Box::new(|info| {
+        let loc = info.location().map(|l| format!("{}:{}", l.file(), l.line())).unwrap_or_default();
+        LAST_PANIC_LOC.with(|l| *l.borrow_mut() = loc);
+    }));
+    install_sampler();
+    let stdout = std::io::stdout();
+    let mut out = std::io::BufWriter::new(stdout.lock());
+    let (mut tx, mut rx) = spawn_worker(stack_mb);
+    let mut nrec: i64 = 0;
+    for line in input.lines() {
+        let Ok(line) = line else { break };
+        let line = line.trim();
+        if line.is_empty() {
+            continue;
+        }
+        let req: Req = match serde_json::from_str(line) {
+            Ok(r) => r,
+            Err(e) => {
+                let _ = writeln!(out, "{}", json!({"outcome":"badrequest","message":e.to_string()}));
+                continue;
+            }
+        };
+        let tag = req.tag.clone();
+        let op = req.op.clone();
+        if tx.send(req).is_err() {
+            let _ = writeln!(out, "{}", json!({"tag":tag,"op":op,"outcome":"crash","rec":-1}));
+            (tx, rx) = spawn_worker(stack_mb);
+            continue;
+        }
+        match rx.recv_timeout(budget) {
+            Ok((mut res, rec)) => {
+                if let (Some(rec), Some(f)) = (rec, trace_out.as_mut()) {
+                    nrec += 1;
+                    res["rec"] = json!(nrec);
+                    let _ = writeln!(f, "{{\"i\":{nrec},{rec}");
+                } else {
+                    res["rec"] = json!(-1);
+                }
+                let _ = writeln!(out, "{res}");
+            }
+            Err(_) => {
+                // still running after the budget: report, abandon that thread, carry on with a fresh one
+                let ph = PHASES[PHASE.load(Ordering::SeqCst) as usize % PHASES.len()];
+                let stacks = sample_worker();
+                let _ = writeln!(
+                    out,
+                    "{}",
+                    json!({"tag":tag,"op":op,"outcome":"timeout","phase":ph,"stacks":stacks,
+                           "budget_ms":budget.as_millis() as u64,"rec":-1})
+                );
+                let _ = out.flush();
+                if let Some(f) = trace_out.as_mut() {
+                    let _ = f.flush();
+                }
+                // the abandoned thread keeps spinning (and possibly allocating): leave; the driver restarts us
+                // with the remaining requests
+                std::process::exit(0);
+            }
+        }
+    }
+    let _ = out.flush();
+    if let Some(mut f) = trace_out {
+        let _ = f.flush();
+    }
+    // abandoned (hung) worker threads must not keep the process alive
+    std::process::exit(0);
 }
